@@ -779,8 +779,9 @@ class Backend:
             envlist = []
             for k, v in env.get_env({}).items():
                 envlist.append(f'{k}={v}')
-            # A newline cannot be written into a ninja command: serialise instead
-            if not any('\n' in e for e in envlist):
+            # A newline cannot be written into a ninja command, and env(1) takes
+            # a program path containing '=' for another assignment: serialise instead
+            if not any('\n' in e for e in envlist) and '=' not in es.cmd_args[0]:
                 return ['env'] + envlist + es.cmd_args, ', '.join(reasons)
 
         if can_use_rsp_file and any(a.startswith(rsp_file_flag) for a in es.cmd_args):
